@@ -38,6 +38,7 @@ type LoopAnn struct {
 	Unroll int
 	Invs   []string // names of invariant functions
 	Decr   string   // name of the variant function (int-valued), optional
+	For      string   // only while the named target (function name or as= label) is being verified
 	Bounded  bool     // unroll N bounded: executions with more iterations are not covered (stated in the evidence)
 	Modifies []string // local variables (slices, pointers, maps) whose referents the loop body may write
 }
